@@ -19,6 +19,7 @@ macro_rules! registry {
 registry! {
     "C15" => c15,
     "C16" => c16,
+    "C17" => c17,
     "C24" => c24,
 }
 
